@@ -179,10 +179,17 @@ def short(tr):
         for e in tr)
 
 
-def run_family(ctx, pid, family, consts, judged_extra=None, options_mode=False, clauses=None):
+def run_family(ctx, pid, family, consts, judged_extra=None, options_mode=False, clauses=None, extra_scripts=()):
     ctx.log("TLC: script universe + design check, family %s %s" % (family, consts))
     scripts, pred, states, trans, design = generate(ctx, family, consts)
-    ctx.log("%d scripts (%d states); replaying into LLMRails" % (len(scripts), states))
+    # directed scripts outside the modelled family: replayed and judged by the same TLA+ predicates (the clauses named in
+    # the script), no predicted log (no drift comparison)
+    for x in extra_scripts:
+        sid = len(scripts) + 1000000
+        while sid in scripts:
+            sid += 1
+        scripts[sid] = x
+    ctx.log("%d scripts (%d states, %d directed scripts without model prediction); replaying into LLMRails" % (len(scripts), states, len(extra_scripts)))
     real = replay_all(ctx, scripts)
     turns = sum(len(v) for v in real.values())
     ctx.log("replayed %d conversations / %d turns; judging with TLC" % (len(real), turns))
@@ -190,6 +197,8 @@ def run_family(ctx, pid, family, consts, judged_extra=None, options_mode=False, 
     # drift
     drift = 0
     for sid, trs in real.items():
+        if sid not in pred:
+            continue
         for t, tr in enumerate(trs, start=1):
             exp = pred[sid].get(t)
             if exp is None or _norm(tr["trace"]) != _norm(exp):
@@ -205,8 +214,10 @@ def run_family(ctx, pid, family, consts, judged_extra=None, options_mode=False, 
         if any(x != "A" for x in turn["inv"] + turn["outv"]) or turn["opts"]["set"]:
             nontriv.add((sid, t))
         cls = list(clauses or CLAUSES.get(pid, []))
+        if "clauses" in s:
+            cls = list(s["clauses"]) if "turn_clauses" not in s else list(s["turn_clauses"].get(str(t), s["clauses"]))
         poisoned = False
-        if (pid == "C03" and any(x in ("F", "G") for tt in s["turns"][: t - 1] for x in tt["inv"] + tt["outv"])
+        if ("clauses" not in s and pid == "C03" and any(x in ("F", "G") for tt in s["turns"][: t - 1] for x in tt["inv"] + tt["outv"])
                 and not any(x in ("F", "G") for x in turn["inv"] + turn["outv"])):   # (a faulting turn itself is judged by `contained`)
             # "the failure does not poison the conversation: the next turn is processed with all rails active"
             poisoned = True
@@ -218,7 +229,7 @@ def run_family(ctx, pid, family, consts, judged_extra=None, options_mode=False, 
                     "a turn after a failing action is not processed with all rails active: " if (poisoned and cl not in ("contained", "completes")) else "", CLAUSE_TEXT[cl], s["cfg"], [dict({k: x[k] for k in ("kind", "inv", "outv")}, **({"opts": [k for k in ("input", "dialog", "retrieval", "output") if x["opts"][k]], "sup": x["sup"]} if x["opts"]["set"] else {})) for x in s["turns"]], t,
                     short(tr["trace"])),
                     {"script": s, "turn": t, "clause": cl, "trace": tr["trace"], "raised": tr["raised"],
-                     "sig": {"clause": cl, "ver": s["cfg"]["ver"], "shape": s["cfg"]["shape"], "exc": s["cfg"]["exc"],
+                     "sig": {"clause": cl, "ver": s["cfg"]["ver"], "shape": s["cfg"]["shape"], "exc": s["cfg"]["exc"], "directed": s.get("label", ""),
                              "dialog": s["cfg"]["dialog"],
                              "fault_kind": next((e["s"] for e in tr["trace"] if e["e"] == "act" and e["b"] == 3), None)}})
         if judged_extra:
@@ -232,6 +243,93 @@ def run_family(ctx, pid, family, consts, judged_extra=None, options_mode=False, 
         "evaluations": turns, "distinct_nontrivial": len(nontriv),
         "samples": samples, "exhaustive": True, "scripts": len(scripts), "drift_turns": drift, "design_verdict": design,
     }
+
+
+NOOPTS = {"set": False, "input": True, "dialog": True, "retrieval": True, "output": True}
+
+
+def _turn(kind="llm", inv=(), outv=(), **kw):
+    d = {"kind": kind, "inv": list(inv), "outv": list(outv), "opts": dict(NOOPTS), "sup": False}
+    d.update(kw)
+    return d
+
+
+def directed_c01():
+    """C01: a repeated user text, rails that reject by answering None with a shared result variable."""
+    out = []
+    base = {"ver": 1, "nout": 0, "dialog": True, "exc": False, "nret": 0, "pass": False}
+    for nin in (1, 2):
+        for shape in ("tri", "check"):
+            cfg = dict(base, nin=nin, shape=shape)
+            for v1 in (["A"] * nin, ["R"]):
+                for v2 in (["A"] * nin, ["R"], (["A", "R"] if nin == 2 else ["R"])):
+                    for cold in (False, True):
+                        out.append({"cfg": cfg, "label": "repeated-text", "clauses": ["gate", "order", "reject", "completes"],
+                                    "turns": [_turn("llm", v1), _turn("llm", v2, repeat=True, cold=cold)]})
+    for nin in (1, 2):
+        cfg = dict(base, nin=nin, shape="none")
+        vecs = [["A"] * nin, ["R"]] + ([["A", "R"]] if nin == 2 else [])
+        for v1 in vecs:
+            for v2 in vecs:
+                out.append({"cfg": cfg, "label": "none-verdict", "clauses": ["gate", "order", "reject", "completes"],
+                            "turns": [_turn("llm", v1), _turn("free", v2)]})
+                out.append({"cfg": cfg, "label": "none-verdict", "clauses": ["gate", "order", "reject", "completes"],
+                            "turns": [_turn("llm", v1), _turn("free", v2), _turn("llm", v1)]})
+    return out
+
+
+def directed_c02():
+    """C02: multi-step generation whose generated flow carries the message text inline."""
+    out = []
+    cfg = {"ver": 1, "nin": 0, "nout": 1, "dialog": True, "exc": False, "nret": 0, "pass": False, "shape": "tri", "multi_step": True}
+    for v1 in ("A", "R"):
+        for v2 in ("A", "R"):
+            turns = []
+            for t, v in enumerate((v1, v2), start=1):
+                turns.append(_turn("free", (), [v], llm_out={"generate_next_steps": 'bot provide the code\n  "the code is B%dv0"\n' % t}))
+            out.append({"cfg": cfg, "label": "multistep-inline-text", "clauses": ["ogate", "oreject", "ochecked", "completes"], "turns": turns})
+            out.append({"cfg": cfg, "label": "multistep-inline-text", "clauses": ["ogate", "oreject", "ochecked", "completes"],
+                        "turns": [turns[0], _turn("free", (), [v2])]})
+    return out
+
+
+def directed_c02v2():
+    """C02, Colang 2.x library: a turn in which the LLM answers with nothing, then turns that must be checked again."""
+    out = []
+    for shape in ("check", "inv"):
+        cfg = {"ver": 2, "nin": 0, "nout": 1, "dialog": True, "exc": False, "shape": shape}
+        for v2 in ("A", "R"):
+            for v3 in ("A", "R"):
+                out.append({"cfg": cfg, "label": "empty-llm-text", "clauses": ["completes"], "turn_clauses": {"2": ["ogate", "oreject", "ochecked", "completes"], "3": ["ogate", "oreject", "ochecked", "completes"]},
+                            "turns": [_turn("llm", (), ["A"], empty=True), _turn("llm", (), [v2]), _turn("llm", (), [v3])]})
+    return out
+
+
+def directed_c03():
+    """C03: rail actions that are plain functions returning a coroutine; a second action failing inside the blocking branch."""
+    out = []
+    base = {"ver": 1, "dialog": True, "exc": False, "nret": 0, "pass": False}
+    allc = ["contained", "completes"]
+    after = ["gate", "order", "reject", "ogate", "oreject", "ochecked", "contained", "completes"]
+    for shape in ("check", "inv"):
+        cfg = dict(base, nin=1, nout=1, shape=shape, syncwrap=True)
+        for (i1, o1) in ((["F"], ["A"]), (["A"], ["F"]), (["A"], ["A"]), (["R"], ["A"]), (["A"], ["R"])):
+            out.append({"cfg": cfg, "label": "sync-wrapper-action", "clauses": after if "F" not in i1 + o1 else allc, "turn_clauses": {"2": after},
+                        "turns": [_turn("llm", i1, o1), _turn("llm", ["A"], ["A"])]})
+    # the blocking branch reports the violation through a second action that fails: the turn is hidden; later turns must
+    # still be blocked when the rail says so (fail open) and must not be blocked when it accepts (poisoning)
+    for shape in ("check", "own"):
+        cfg = dict(base, nin=1, nout=1, shape=shape, aux=True)
+        for later in ((["R"], ["A"]), (["A"], ["R"]), (["A"], ["A"])):
+            for first in ((["A"], ["A"]), None):
+                turns = ([_turn("llm", *first)] if first else []) + [_turn("llm", ["R"], ["A"], auxfail=True), _turn("llm", *later), _turn("llm", *later)]
+                n = len(turns)
+                tc = {str(k): after for k in range(1, n + 1)}
+                tc[str(n - 2)] = allc
+                out.append({"cfg": cfg, "label": "second-action-fails-in-blocking-branch", "clauses": after, "turn_clauses": tc, "turns": turns})
+                turns2 = ([_turn("llm", *first)] if first else []) + [_turn("llm", ["A"], ["R"], auxfail=True), _turn("llm", *later), _turn("llm", *later)]
+                out.append({"cfg": cfg, "label": "second-action-fails-in-blocking-branch", "clauses": after, "turn_clauses": tc, "turns": turns2})
+    return out
 
 
 def replay_script(ctx, rec):
